@@ -26,7 +26,7 @@ use secrecy::SecretVec;
 use sha2::{Digest, Sha256};
 
 use zcash_client_backend::data_api::chain::{scan_cached_blocks, ChainState, CommitmentTreeRoot};
-use zcash_client_backend::data_api::wallet::decrypt_and_store_transaction;
+use zcash_client_backend::data_api::wallet::{decrypt_and_store_transaction, ConfirmationsPolicy};
 use zcash_client_backend::data_api::{
     AccountBirthday, AccountPurpose, OutputLockStore, SentTransaction, SentTransactionOutput,
     TransactionStatus, WalletCommitmentTrees, WalletRead, WalletWrite,
@@ -40,7 +40,7 @@ use zcash_keys::keys::{UnifiedAddressRequest, UnifiedSpendingKey};
 use zcash_pool_migration::denomination::DenominationPlan;
 use zcash_pool_migration::engine::{
     MigrationLockOwner, MigrationState, MigrationStatus, MigrationTransaction, MigrationTransferId, MigrationTxKind,
-    MigrationTxState, PoolMigrationWrite, ProvedTransaction,
+    MigrationTxState, PoolMigrationRead, PoolMigrationWrite, ProvedTransaction,
 };
 use zcash_pool_migration::preparation::PreparationPlan;
 use zcash_pool_migration::satisfiability::ReplanThreshold;
@@ -500,7 +500,7 @@ struct Ctx {
     /// a transparent-only transaction paying account 0's transparent address
     tx_in: Transaction,
     /// a transparent-only transaction paying a foreign address (sent by account 0)
-    tx_out: Transaction,
+    txs_out: Vec<Transaction>,
     taddr0: TransparentAddress,
     foreign_taddr: TransparentAddress,
     note_refs: Vec<OutputRef>,
@@ -653,7 +653,10 @@ fn ops() -> Vec<OpDef> {
         let mut db = wdb(c, x, rs);
         e(decrypt_and_store_transaction(&x.world.net, &mut db, &x.tx_in, Some(BlockHeight::from_u32(BASE + 2))))
     }));
-    add("WalletWrite::store_transactions_to_be_sent", "store_sent", Box::new(|c, x, rs| {
+    // batches of 1, 2 and 3 cheap transparent-only transactions (multi-step proposals produce
+    // batches); `bad` = index of a transaction whose funding account the wallet does not know, so
+    // that the uninterrupted call fails after the earlier transactions of the batch were written
+    fn store_batch(c: &mut Connection, x: &Ctx, rs: u64, n: usize, bad: Option<usize>) -> Result<(), String> {
         let outs = vec![SentTransactionOutput::from_parts(
             0,
             Recipient::External {
@@ -664,17 +667,27 @@ fn ops() -> Vec<OpDef> {
             None,
         )];
         let created = time::OffsetDateTime::from_unix_timestamp(1_740_441_600).unwrap();
-        let sent = SentTransaction::new(
-            &x.tx_out,
-            created,
-            BlockHeight::from_u32(x.world.tip_height() + 1).into(),
-            x.world.accts[0].id,
-            &outs,
-            Zatoshis::const_from_u64(10_000),
-            &[],
-        );
-        e(wdb(c, x, rs).store_transactions_to_be_sent(&[sent]))
-    }));
+        let unknown = zcash_client_sqlite::AccountUuid::from_uuid(uuid::Uuid::from_bytes([7u8; 16]));
+        let sent: Vec<_> = (0..n)
+            .map(|i| {
+                SentTransaction::new(
+                    &x.txs_out[i],
+                    created,
+                    BlockHeight::from_u32(x.world.tip_height() + 1).into(),
+                    if bad == Some(i) { unknown } else { x.world.accts[0].id },
+                    &outs,
+                    Zatoshis::const_from_u64(10_000),
+                    &[],
+                )
+            })
+            .collect();
+        e(wdb(c, x, rs).store_transactions_to_be_sent(&sent))
+    }
+    add("WalletWrite::store_transactions_to_be_sent", "store_sent", Box::new(|c, x, rs| store_batch(c, x, rs, 1, None)));
+    add("WalletWrite::store_transactions_to_be_sent", "store_sent2", Box::new(|c, x, rs| store_batch(c, x, rs, 2, None)));
+    add("WalletWrite::store_transactions_to_be_sent", "store_sent3", Box::new(|c, x, rs| store_batch(c, x, rs, 3, None)));
+    add("WalletWrite::store_transactions_to_be_sent", "store_sent_bad2", Box::new(|c, x, rs| store_batch(c, x, rs, 2, Some(1))));
+    add("WalletWrite::store_transactions_to_be_sent", "store_sent_bad3", Box::new(|c, x, rs| store_batch(c, x, rs, 3, Some(2))));
     add("WalletWrite::set_transaction_status", "txstatus", Box::new(|c, x, rs| {
         let txid = x.world.chain[0].cb.vtx[0].txid();
         e(wdb(c, x, rs).set_transaction_status(txid, TransactionStatus::Mined(BlockHeight::from_u32(BASE))))
@@ -1085,6 +1098,11 @@ fn drive(env: &mut Env, pre: &Path, tables: &Arc<Vec<String>>, tcode: &HashMap<S
         // faults inside a refused call must leave the database untouched as well
         let n = refr.steps.max(1);
         let mut ks: Vec<u64> = (0..env.n_fault).map(|_| env.rng.range(1, n)).collect();
+        for w in refr.write_steps.iter() {
+            ks.push(*w);
+            ks.push(*w + 1);
+        }
+        ks.retain(|k| *k >= 1 && *k <= n);
         ks.sort();
         ks.dedup();
         for (i, k) in ks.iter().enumerate() {
@@ -1131,7 +1149,7 @@ fn drive(env: &mut Env, pre: &Path, tables: &Arc<Vec<String>>, tcode: &HashMap<S
     {
         let mut ws = refr.write_steps.clone();
         ws.dedup();
-        let stride = if (2..10).contains(&state) || env.thorough { 1 } else { (ws.len() / 6).max(1) };
+        let stride = if (2..10).contains(&state) || env.thorough || op.label.starts_with("store_sent") { 1 } else { (ws.len() / 6).max(1) };
         for w in ws.iter().step_by(stride) {
             ks.push(*w);
             ks.push(w.saturating_sub(1));
@@ -1240,6 +1258,245 @@ fn drive(env: &mut Env, pre: &Path, tables: &Arc<Vec<String>>, tcode: &HashMap<S
     }
 }
 
+// ---------------------------------------------------------------------------------------------
+// real snapshot reads on a reader connection, a complete writer call interleaved
+// ---------------------------------------------------------------------------------------------
+
+/// Reader-side tracer: the reader connection's progress handler sees every statement of the
+/// API call start (`RRead`), derives the read-transaction bracket from the autocommit flag
+/// (`RBegin` / `REnd`), and at statement boundary `fire_at` runs a complete writer call on
+/// another connection, whose trace is spliced in.
+struct RS {
+    active: bool,
+    ev: Vec<Ev>,
+    handle: usize,
+    in_txn: bool,
+    last_stmt: usize,
+    boundaries: u64,
+    fire_at: u64,
+    fired: bool,
+}
+
+struct FirePtr(*mut dyn FnMut() -> Vec<Ev>);
+unsafe impl Send for FirePtr {}
+static FIRE: Mutex<Option<FirePtr>> = Mutex::new(None);
+
+/// The data statement currently executing on the connection (0 = none).
+fn busy_data_stmt(handle: usize) -> usize {
+    unsafe {
+        let db = handle as *mut rusqlite::ffi::sqlite3;
+        let mut st = rusqlite::ffi::sqlite3_next_stmt(db, std::ptr::null_mut());
+        while !st.is_null() {
+            if rusqlite::ffi::sqlite3_stmt_busy(st) != 0 {
+                let p = rusqlite::ffi::sqlite3_sql(st);
+                let ctl = if p.is_null() {
+                    false
+                } else {
+                    let sql = std::ffi::CStr::from_ptr(p).to_string_lossy().trim_start().to_ascii_uppercase();
+                    sql.starts_with("BEGIN") || sql.starts_with("COMMIT") || sql.starts_with("ROLLBACK") || sql.starts_with("END")
+                };
+                if !ctl {
+                    return st as usize;
+                }
+            }
+            st = rusqlite::ffi::sqlite3_next_stmt(db, st);
+        }
+        0
+    }
+}
+
+impl RS {
+    fn bracket(&mut self) {
+        let ac = autocommit(self.handle);
+        if !ac && !self.in_txn {
+            self.in_txn = true;
+            self.ev.push(Ev::RBegin);
+        } else if ac && self.in_txn {
+            self.in_txn = false;
+            self.ev.push(Ev::REnd);
+        }
+    }
+}
+
+fn install_reader(conn: &Connection, rs: &Arc<Mutex<RS>>) {
+    rs.lock().unwrap().handle = unsafe { conn.handle() } as usize;
+    let t = rs.clone();
+    conn.progress_handler(
+        1,
+        Some(move || {
+            let mut s = t.lock().unwrap();
+            if !s.active {
+                return false;
+            }
+            s.bracket();
+            let cur = busy_data_stmt(s.handle);
+            if cur != 0 && cur != s.last_stmt {
+                s.boundaries += 1;
+                s.ev.push(Ev::RRead);
+                if s.boundaries == s.fire_at && !s.fired {
+                    s.fired = true;
+                    let f = FIRE.lock().unwrap().take();
+                    if let Some(FirePtr(p)) = f {
+                        let wev = unsafe { (*p)() };
+                        s.ev.extend(wev);
+                    }
+                }
+            }
+            s.last_stmt = cur;
+            false
+        }),
+    );
+}
+
+struct ReadApi {
+    name: &'static str,
+    /// runs the API on the reader connection and returns a canonical rendering of its result
+    /// `start()` is called right before the API call proper (after constructing the store)
+    run: Box<dyn Fn(&Connection, &Ctx, &dyn Fn()) -> Result<String, String>>,
+}
+
+fn read_apis() -> Vec<ReadApi> {
+    vec![
+        ReadApi {
+            name: "WalletRead::get_wallet_summary",
+            run: Box::new(|c, x, start| {
+                let db = WalletDb::from_connection(c, x.world.net, clock(), ChaChaRng::seed_from_u64(1));
+                start();
+                let s = db.get_wallet_summary(ConfirmationsPolicy::MIN).map_err(|e| format!("{e:?}"))?;
+                Ok(match s {
+                    None => "none".to_string(),
+                    Some(s) => {
+                        let mut b: Vec<String> = s.account_balances().iter().map(|(k, v)| format!("{:?}={:?}", k.expose_uuid(), v)).collect();
+                        b.sort();
+                        format!(
+                            "tip={:?} fs={:?} prog={:?} ns={} no={} ni={} bal={:?}",
+                            s.chain_tip_height(),
+                            s.fully_scanned_height(),
+                            s.progress(),
+                            s.next_sapling_subtree_index(),
+                            s.next_orchard_subtree_index(),
+                            s.next_ironwood_subtree_index(),
+                            b
+                        )
+                    }
+                })
+            }),
+        },
+        ReadApi {
+            name: "store::mined_height",
+            run: Box::new(|c, x, start| {
+                let pm = PoolMigrations::for_account(x.world.net, clock(), c, x.world.accts[0].id).map_err(|e| format!("{e:?}"))?;
+                // a wallet transaction mined (and scanned) at BASE + 2, above the height `trunc` goes to
+                let h = BASE + 2;
+                let txid = x.world.block(h).unwrap().cb.vtx[0].txid();
+                start();
+                Ok(format!("{:?}", pm.mined_height(txid).map_err(|e| format!("{e:?}"))?))
+            }),
+        },
+    ]
+}
+
+fn render_digest(s: &str) -> u64 {
+    digest(s.as_bytes())
+}
+
+/// One snapshot read API against one writer operation on the state `pre`: reference values
+/// before / after the writer call, then the read with the writer call fired at every statement
+/// boundary k of the read.
+#[allow(clippy::too_many_arguments)]
+fn drive_reader(env: &mut Env, pre: &Path, tables: &Arc<Vec<String>>, tcode: &HashMap<String, u64>, api: &ReadApi, wop: &OpDef, wopi: u64, ctx: &Ctx) {
+    let work_buf = env.work.clone();
+    let work: &Path = &work_buf;
+    // reference: API value on the state before and on the state after the uninterrupted writer call
+    fresh_copy(pre, work, Mode::Delete);
+    let pre_s = match (api.run)(&open_db(work, Mode::Delete), ctx, &|| ()) {
+        Ok(s) => s,
+        Err(er) => {
+            env.stats.skipped.push(format!("read:{}:{}", api.name, &er[..er.len().min(80)]));
+            return;
+        }
+    };
+    {
+        let mut c = open_db(work, Mode::Delete);
+        if (wop.run)(&mut c, ctx, 1000).is_err() {
+            return;
+        }
+    }
+    let post_s = (api.run)(&open_db(work, Mode::Delete), ctx, &|| ()).unwrap_or_default();
+    let (pre_d, post_d) = (render_digest(&pre_s), render_digest(&post_s));
+    if env.debug {
+        eprintln!("[read] {} vs {}: pre={} post={}", api.name, wop.label, &pre_s[..pre_s.len().min(90)], &post_s[..post_s.len().min(90)]);
+    }
+    let mut nstmts = 0u64;
+    // k = 0: the writer call completes right before the first statement of the read
+    let mut k = 0u64;
+    loop {
+        for mode in [Mode::Wal, Mode::Delete] {
+            if mode == Mode::Delete && !(env.thorough || k % 4 == 1) {
+                continue;
+            }
+            fresh_copy(pre, work, mode);
+            let rconn = open_db(work, mode);
+            let mut wconn = open_db(work, mode);
+            // the reader (same thread) cannot release its lock while the writer waits
+            wconn.busy_timeout(Duration::from_millis(0)).unwrap();
+            let rs = Arc::new(Mutex::new(RS { active: false, ev: vec![], handle: 0, in_txn: false, last_stmt: 0, boundaries: 0, fire_at: k, fired: false }));
+            install_reader(&rconn, &rs);
+            let mut fire = || -> Vec<Ev> {
+                let r = run_op(&mut wconn, work, tables, tcode, wop, wopi, ctx, 1000, &Plan::default(), mode);
+                r.ev
+            };
+            let fp: &mut dyn FnMut() -> Vec<Ev> = &mut fire;
+            // the closure outlives the API call below and is taken (at most once) inside it
+            *FIRE.lock().unwrap() = Some(FirePtr(unsafe { std::mem::transmute::<&mut dyn FnMut() -> Vec<Ev>, *mut (dyn FnMut() -> Vec<Ev> + 'static)>(fp) }));
+            let rs2 = rs.clone();
+            let res = vcommon::catch(|| {
+                (api.run)(&rconn, ctx, &|| {
+                    let mut s = rs2.lock().unwrap();
+                    s.active = true;
+                    if s.fire_at == 0 {
+                        s.fired = true;
+                        if let Some(FirePtr(p)) = FIRE.lock().unwrap().take() {
+                            let wev = unsafe { (*p)() };
+                            s.ev.extend(wev);
+                        }
+                    }
+                })
+            });
+            {
+                let mut s = rs.lock().unwrap();
+                s.bracket();
+                s.active = false;
+            }
+            *FIRE.lock().unwrap() = None;
+            rconn.progress_handler(0, None::<fn() -> bool>);
+            let s = rs.lock().unwrap();
+            nstmts = nstmts.max(s.boundaries);
+            let res_d = match res {
+                Some(Ok(v)) => render_digest(&v),
+                _ => 0,
+            };
+            let m = match mode {
+                Mode::Delete => 0,
+                Mode::Wal => 1,
+                Mode::Spill => 2,
+            };
+            vcommon::case(format!("CRead \"{}\"%string {} {} {} {} {} {}", api.name, k, m, coq_trace(&s.ev), pre_d, post_d, res_d));
+            env.stats.runs += 1;
+            *env.stats.by_kind.entry("snapshot_read").or_insert(0) += 1;
+            if res_d != pre_d && res_d != post_d {
+                env.stats.swallowed.push(format!("TORN-READ {}@{k} vs {}", api.name, wop.label));
+            }
+        }
+        k += 1;
+        if k > nstmts + 1 {
+            break;
+        }
+    }
+    let e0 = env.stats.ops.entry(api.name).or_insert((0, 0));
+    e0.0 = e0.0.max(nstmts);
+}
+
 fn build_ctx(seed: u64, variant: u64) -> Ctx {
     let mut w = World::new(hist::rng_from(seed, 100 + variant), 2);
     let mut r = vcommon::Rng::new(seed, 200 + variant);
@@ -1282,7 +1539,7 @@ fn build_ctx(seed: u64, variant: u64) -> Ctx {
     let fusk = UnifiedSpendingKey::from_seed(&net, &other_seed, zip32::AccountId::try_from(9).unwrap()).unwrap();
     let foreign_taddr = taddr_of(&fusk);
     let tx_in = transparent_tx(&net, &taddr0, 55_000, BASE + 2, 3);
-    let tx_out = transparent_tx(&net, &foreign_taddr, 30_000, BASE + 3, 4);
+    let txs_out: Vec<Transaction> = (0..3u8).map(|i| transparent_tx(&net, &foreign_taddr, 30_000 + i as u64, BASE + 3, 4 + i)).collect();
 
     // received notes of account 0, as OutputRefs (setup query; not an observation)
     let mut note_refs = vec![];
@@ -1309,7 +1566,7 @@ fn build_ctx(seed: u64, variant: u64) -> Ctx {
         }
     }
     let genesis = ChainState::empty(BlockHeight::from_u32(BASE - 1), BlockHash([0; 32]));
-    Ctx { world: w, tx_in, tx_out, taddr0, foreign_taddr, note_refs, other_seed, genesis }
+    Ctx { world: w, tx_in, txs_out, taddr0, foreign_taddr, note_refs, other_seed, genesis }
 }
 
 fn main() {
@@ -1376,6 +1633,15 @@ fn main() {
                     continue;
                 }
                 drive(&mut env, &pre, &tables, &tcode, pre_d, op, opi as u64, &ctx, variant, state);
+            }
+            // ---- the real snapshot reads with a writer call interleaved at every statement boundary
+            if state <= 1 && only.as_ref().map_or(true, |o| o == "reads") {
+                for api in read_apis().iter() {
+                    for wl in ["trunc", "scan2", "tip+7"] {
+                        let (wi, wop) = opdefs.iter().enumerate().find(|(_, o)| o.label == wl).unwrap();
+                        drive_reader(&mut env, &pre, &tables, &tcode, api, wop, wi as u64, &ctx);
+                    }
+                }
             }
         }
         // ---- states around a really proved migration transaction (one proof per harness run)
